@@ -187,7 +187,8 @@ def composite_curve(draw, tier):
     H = []
     if shape in ("kinks", "steps", "nonmono"):
         slopes = draw(st.lists(st.sampled_from([0.0, 0.0, 1.0, 2.0, 2.0, 5.0, 0.1, 12.5]), min_size=1, max_size=5))
-        h = float(draw(st.integers(0, 5000)))
+        # a quarter of the curves sit at plant-scale enthalpies: end segments are then tiny relative to the values
+        h = float(draw(st.one_of(st.integers(0, 5000), st.integers(0, 5000), st.integers(0, 5000), st.sampled_from([200000, 1000000, 5000000]))))
         H = [h]
         per = max(1, (n - 1) // len(slopes))
         for i in range(1, n):
